@@ -190,9 +190,22 @@ def eval (F : FloatOps) : Expr → Res
      | .val _ => .illTyped
      | r => r)
   | .as_ v ty =>
-    -- a cast of an integer constant to an integer type keeps the value (no range check: constants are 64-bit)
+    -- casts listed in docs/language.md on constants: a cast of an integer constant to an integer type keeps the value
+    -- (no range check: constants are 64-bit); bool → integer is 0/1; double → integer truncates toward zero (C++
+    -- static_cast), undefined when the truncated value does not fit; integer → double is the nearest double
     (match eval F v with
-     | .val (.int i) => if ty = ["int"] ∨ ty = ["uint"] then .val (.int i) else .outside
+     | .val (.int i) =>
+       if ty = ["int"] ∨ ty = ["uint"] then .val (.int i)
+       else if ty = ["double"] ∨ ty = ["qreal"] then .val (.float (F.ofInt i))
+       else .outside
+     | .val (.bool b) => if ty = ["int"] ∨ ty = ["uint"] then .val (.int (if b then 1 else 0)) else .outside
+     | .val (.float x) =>
+       if ty = ["int"] ∨ ty = ["uint"] then
+         (match F.truncToInt x with
+          | some i => intRes i
+          | none => .undefined "double does not fit the integer type")
+       else if ty = ["double"] ∨ ty = ["qreal"] then .val (.float x)
+       else .outside
      | .val _ => .outside
      | r => r)
   | _ => .outside
